@@ -66,6 +66,17 @@ CHECKS["C15"] = dict(
     note="Trusted: TLC, virtual loop, queue wrapper. Timing tolerance one poll + 6 ms (+ the client's own handler suspension where it delays the code). Only hello replies are sent to the locator's queue.",
     design="§4 C15")
 
+CHECKS["C11"] = dict(
+    technique="Facade.tla value semantics (no Raise transition) as oracle; every platform x config x log combination built as a real facade on several blocks, every read-only member evaluated by reflection; records judged by TLC (C11_Judge)",
+    text="For all 895 combinations on disk and all-zero / all-ones / random / pattern / shipped-snapshot / mutated-snapshot blocks the real GeckoAsyncFacade is constructed on a mock spa and every public property, str, repr, monitor, device list and lookup of the facade and of every device is evaluated (>1.1 M evaluations in the quick tier); all 256 water-care mode bytes, boundary reminder records for every reminder type and out-of-range values of every enum item of one table pair per platform are evaluated. TLC judges: facade constructed, no member raises, out-of-range reads 'Unknown', water-care/reminder renderings as specified.",
+    note="Trusted: TLC, member discovery by reflection, the mock spa. Known findings D6: three platforms/log versions for which no facade can be constructed (recorded by platform signature).",
+    design="§4 C11")
+CHECKS["C12"] = dict(
+    technique="Facade.tla Inventory operators model-checked over all wirings of a small table (Facade_MC); real async and blocking facades built for enumerated output wirings on real table pairs; inventory, keys, lookups, unique ids judged by TLC (C12_Judge)",
+    text="The inventory function (device present iff a connected output's label starts with its key, table order, once each, case-insensitive user-demand match, class from DEVICES, sensors iff their item exists) is specified with code-point sequences so that TLC decides the prefix tests; Facade_MC checks it on all 512 wirings of 3 outputs incl. duplicates. On real config/log pairs of every platform each output is wired to each sampled label with the others NA plus seeded multi-output wirings; both facade classes are built and TLC compares pumps/blowers/lights (device, demand item, order), sensors, key uniqueness, lookup identity and unique ids with the specification.",
+    note="Trusted: TLC, the W3 facade rig, writing label indices into the block as the wiring. Platforms without a constructible facade (C11 finding) contribute nothing.",
+    design="§4 C12")
+
 NOT_YET = {}
 
 
